@@ -275,7 +275,7 @@ def run(ctx):
     jobs.append((job_grid, (ctx.seed, 2, 2, 4, m4)))
     for k in range(0, len(m7), 16):
         jobs.append((job_grid, (ctx.seed + k, 2, 3, 6 if k % 32 else 4, m7[k:k + 16])))
-    per = 60 if quick else 600
+    per = 60 if quick else 2500
     for k in range(32):
         jobs.append((job_random, (ctx.seed * 17 + k, per)))
     events = []
